@@ -373,7 +373,48 @@ class LineWorld(OracleWorld):
     TERMS = ["", "\n", "\r\n"]
 
     def term_of(self, st, k):
-        return st.choose(("term", k), self.TERMS)
+        t = st.choose(("term", k), self.TERMS)
+        # the line as read is body ++ t: it has at least len(t) bytes, and an empty read has no terminator
+        r = ip.rng_get(st, Sym(("nbytes", k), "usize"))
+        _lt, ge = ip._rng_split(r, "Lt", len(t))
+        if not ge:
+            raise ip.Infeasible()
+        st.facts[("rng", ("nbytes", k))] = tuple(ge)
+        return t
+
+    REPRESENTATIVES = (10, 13, 32, 9, 0x3000, 0xA0, ord("a"), ord("Z"), ord("0"), ord(";"), ord(","), ord("."), ord("#"))
+
+    def pattern_chars(self, m, st, pat):
+        """The subset of REPRESENTATIVES a char pattern (a char, or a closure over one char that compares it
+        with constants) matches; None when the pattern cannot be evaluated here."""
+        v = pat
+        if isinstance(v, Ref):
+            v = m.load(st, v.loc)
+        if isinstance(v, I):
+            return {v.v}
+        if not isinstance(v, ip.Clo):
+            return None
+        out = set()
+        for c in self.REPRESENTATIVES:
+            sub = ip.State()
+            sub.nuid = 20_000
+            body = self.prog.body(v.defpath)
+            fr = ip.Frame(body, sub.fresh())
+            fr.locals[1] = Ref(("val", v))
+            fr.locals[2] = I(c, "char")
+            sub.frames.append(fr)
+            try:
+                outs = [o for o in m.run(sub) if o.kind != "closed"]
+            except AnalysisError:
+                return None
+            if len(outs) != 1 or outs[0].kind != "return":
+                return None
+            r = outs[0].value
+            if not isinstance(r, I):
+                return None
+            if r.v:
+                out.add(c)
+        return out
 
     def linebuf(self, m, st, v):
         v = deref_all(m, st, v)
@@ -396,6 +437,8 @@ class LineWorld(OracleWorld):
             if name in ("deref", "as_str", "as_ref", "borrow", "deref_mut", "as_mut_str"):
                 return args[0] if isinstance(args[0], Ref) else Ref(("val", lb))
             if name == "len":
+                if isinstance(removed, tuple):
+                    return Sym(("trimmed-len", k), "usize")
                 return ip.mk_lin(("nbytes", k), -removed, "usize")
             if name == "index" and len(args) == 2:
                 # &line[..x] / &line[a..]: only a prefix keeps the row's beginning
@@ -427,6 +470,22 @@ class LineWorld(OracleWorld):
                     if pat.v in (10, 13):
                         return ip.boolean(False)
                 return ip.boolean(st.choose(("ends-with", k, removed, repr(pat)), [True, False]))
+            if name in ("trim_end_matches", "trim_right_matches", "strip_suffix") and len(args) == 2 and not isinstance(removed, tuple):
+                # a pattern that only matches CR / LF removes (part of) the terminator, nothing of the row
+                cs = self.pattern_chars(m, st, args[1])
+                if cs is not None and cs <= {10, 13}:
+                    t = self.term_of(st, k)
+                    rest = t[: max(len(t) - removed, 0)]
+                    cut = 0
+                    if name == "strip_suffix":
+                        cut = 1 if rest and ord(rest[-1]) in cs else 0
+                        if not cut:
+                            return ip.none()
+                    else:
+                        while cut < len(rest) and ord(rest[len(rest) - 1 - cut]) in cs:
+                            cut += 1
+                    r = Ref(("val", Opq("linebuf", (k, removed + cut))))
+                    return ip.some(r) if name == "strip_suffix" else r
             if name in ("trim_end", "trim_end_matches", "trim_right", "trim_right_matches", "trim", "trim_matches"):
                 st.emit(("trimmed", k, name))
                 return Ref(("val", Opq("linebuf", (k, ("trim", removed)))))
@@ -585,6 +644,8 @@ def line_numbers(prog, rep):
         elif kind == "EOF":
             if res != "None" or parses:
                 hdr_bad.append("end of file yields %s" % res)
+        elif res == "None":
+            hdr_bad.append("a read of at least one byte (a line, possibly empty before its terminator) makes next() return None: the rows after it are never produced")
         else:
             if lo is None or lo < 2:
                 hdr_bad.append("a line whose number may be %s is parsed as a data row: the first physical line is the header" % lo)
